@@ -34,7 +34,7 @@ def S1(ctx):
             ctx.bad("S1", w["fn"], "Thread.state is written outside the transition functions of `impl Thread` "
                     "(%s): the block/wake rules cannot see this transition" % w["kind"],
                     site_str(prog, w["fn"], w["bb"]))
-    ctx.floor("S1", n, 6, "5 field assignments + 1 constructor of Thread.state")
+    ctx.floor("S1", n, 5, "4 field assignments + 1 constructor of Thread.state")
 
 
 def _transition_sites(prog, setter):
@@ -160,10 +160,19 @@ def S3(ctx):
         ctx.touch(s["fn"], 1)
         if anchor == "rt::thread::Thread::set_unparked":
             # the wake-up of unpark(): receiver is `self`; the cause must be "blocked in park", i.e. no pending operation
-            gs = operation_guards(body, s["bb"], recv)
-            if any(k.startswith("call:") and "is_none" in k and pol for (k, pol, e, same, v) in gs) or \
-               any(k == "discr" for (k, pol, e, same, v) in gs):
-                ctx.ok("S3", anchor, "unpark wakes only a thread without pending operation", [site_str(prog, s["fn"], s["bb"])])
+            # scenario: the target is blocked on some object (pending operation) and is not yielding -> it must not be woken
+            scen = {"std::option::Option::<T>::is_none": False, "std::option::Option::<T>::is_some": True, T + "::is_yield": False}
+            reads_op = False
+            for k2 in [T + "::set_unparked"] + [prog.callee_key(c) for (b2, t2, c) in prog.sites(prog.ident(anchor))]:
+                f2 = prog.fn(k2)
+                if f2 is None:
+                    continue
+                for blk in f2.body.blocks:
+                    for st in blk["stmts"]:
+                        if st["k"] == "=" and st["rv"].get("place") and mentions_field(f2.body.expr_of_place(st["rv"]["place"]), T, "operation"):
+                            reads_op = True
+            if reads_op and unreachable_if(body, s["bb"], assume_scenario(prog, scen)):
+                ctx.ok("S3", anchor, "unpark wakes only a thread without pending operation (parked) or a yielded one", [site_str(prog, s["fn"], s["bb"])])
             else:
                 ctx.bad("S3", anchor, "unpark() makes any Blocked/Yield thread Runnable without looking at why it is "
                         "blocked (its pending `operation`): a thread blocked on a lock, join or recv is woken although "
